@@ -452,6 +452,7 @@ class Case:
         self.budget_s = budget_s
         self.nontrivial = nontrivial
         self.int_hi = int_hi
+        self.setup = None  # optional callable run in the case's own process before the body (e.g. solver knobs)
 
 
 FUNCS_SEEN = set()
@@ -565,6 +566,8 @@ def run_case(case, cfg):
     timeout_ms = case.timeout_ms or cfg["timeout_ms"]
     budget = case.budget_s or cfg["case_budget_s"]
     S.SymScalar.INT_HI = case.int_hi
+    if getattr(case, "setup", None):
+        case.setup()
     rep = dict(name=case.name, family=case.family, params=case.params, paths=0, path_status={}, goals=0,
                unsat=0, sat=0, unknown=0, violations=[], inconclusive=[], vacuous=False, gaps=[], unwound=0,
                leftover=0, replays=0, goal_names={}, pcs=[], sample=None, notes=[])
@@ -708,12 +711,24 @@ def run_case(case, cfg):
                     viol["detail"] += " (candidate from relaxed query, confirmed on the real code)"
                     rep["violations"].append(viol)
                     continue
+            if verdict == "unknown" and isinstance(g, z3.ExprRef):
+                # last rung: cubes of the negated goal, each refuted with all hypotheses (see smt.prove_split)
+                verdict, model, dt2 = smt.prove_split(hyps, g, max(timeout_ms * 2, 20000), qs)
+                dt += dt2
+                if verdict == "unsat":
+                    rep.setdefault("ladder", {})
+                    rep["ladder"]["split"] = rep["ladder"].get("split", 0) + 1
             if verdict == "unsat":
                 rep["unsat"] += 1
                 if cfg.get("cross") and len(qs.cross) < cfg["cross_per_case"] and isinstance(g, z3.ExprRef):
                     smt.cross_check(hyps + [z3.Not(g)], "unsat", case.name + ":" + gname, qs, cfg["cross_cap_s"])
             elif verdict == "unknown":
                 rep["unknown"] += 1
+                if os.environ.get("VERIF_DUMP_UNKNOWN") and isinstance(g, z3.ExprRef):  # debugging aid
+                    dn = os.environ["VERIF_DUMP_UNKNOWN"]
+                    os.makedirs(dn, exist_ok=True)
+                    with open(os.path.join(dn, re.sub(r"[^A-Za-z0-9_.-]+", "_", case.name + "__" + gname)[:180] + ".smt2"), "w") as f:
+                        f.write(smt.to_smt2(hyps + [z3.Not(g)]))
                 rep["inconclusive"].append(dict(path=pi, goal=gname, why="solver unknown/timeout %.1fs" % dt))
             else:
                 rep["sat"] += 1
